@@ -143,6 +143,16 @@ check('C09', 'model_checking',
       'TLA+ model of the plan builder checked by TLC + TLC judgement of recorded plan skeletons',
       'DESIGN.md 2.7, 5/C09')
 
+check('C10', 'model_checking',
+      'Routing.tla states the name-resolution contract (Resolve, ModelOf) and the obligations on routing facts; 18 table '
+      'positions x 5 kinds of referenced object x 3 qualifier spellings x 3-4 catalog representations (plus the '
+      'planner tests own queries) are planned; table occurrences of the original and of every shipped query are found '
+      'by an independent reflection walk; TLC decides: every data table fetched from its integration with the qualifier '
+      'removed, no foreign table in a fetch, no model shipped, every model applied in its project with its version.',
+      'Integration names compared case-insensitively; DML target tables and the CREATE TABLE default are not judged.',
+      'TLA+ resolution contract, TLC judgement of routing facts extracted from real plans',
+      'DESIGN.md 2.7, 5/C10')
+
 ALL = ['C%02d' % i for i in range(1, 21)]
 
 
